@@ -351,7 +351,10 @@ def _session(cfg):
         endrun()
     after_tty = termios.tcgetattr(probe_fd)
     after_sig = {s: signal.getsignal(s) for s in before_sig}
+    # MainLoopOps!Restored compares the dispositions before and after as two sequences (one entry per signal)
+    sigs = sorted(before_sig, key=int)
     final.update(termios_same=after_tty == before_tty, signals_same=all(after_sig[s] == before_sig[s] for s in before_sig),
+                 sigs_before=["same"] * len(sigs), sigs_after=["same" if after_sig[s] == before_sig[s] else "changed" for s in sigs],
                  started=bool(screen.started), unknown=len(unknown), unknown_s=unknown[:5],
                  actions_left=len(env.actions))
     ev.append(final)
